@@ -1,11 +1,107 @@
 import StorageModel.Driver.Common
-/- model driver for C18: `run spec` reads case lines on stdin and prints one output line per case
-   (spec = false: the engine model's output; spec = true: the spec's verdict). -/
-namespace StorageModel.Driver.C18
-open StorageModel.Driver
+import StorageModel.C18.Store
+/- model driver for C18 (line protocol documented in /verif/harness/c18.go).
 
-def step (_line : String) : String := "not-implemented"
-def specStep (_line : String) : String := "not-implemented"
+   default mode : case line                  -> `v<number of committed transactions>` for an mv case, `done` for a race case
+   `spec` mode  : case line TAB impl output  -> `ok`, or `fail@<reader.tx>:<query>` naming the first read
+                  transaction / observation that is not the model's answer on the version the transaction
+                  was tagged with (or whose two tag reads differ, or whose tag is no committed version) -/
+namespace StorageModel.Driver.C18
+open StorageModel.Driver StorageModel.C18
+
+def parseNums (s : String) : Option (List Nat) :=
+  if s.isEmpty then some [] else (s.splitOn "+").mapM (·.toNat?)
+
+def parseWOp (tok : String) : Option WOp :=
+  match tok.toList with
+  | 'p' :: rest =>
+    match (String.ofList rest).splitOn "." with
+    | [id, name, rank, roles] => do pure (.put (← id.toNat?) (← name.toNat?) (← rank.toNat?) (← parseNums roles))
+    | _ => none
+  | 'd' :: rest => do pure (.del (← (String.ofList rest).toNat?))
+  | 'l' :: rest =>
+    match (String.ofList rest).splitOn "." with
+    | [id, gs] => do pure (.link (← id.toNat?) (← parseNums gs))
+    | _ => none
+  | _ => none
+
+def parseTx (tok : String) : Option (Bool × List WOp) :=
+  match tok.toList with
+  | c :: ':' :: rest =>
+    let body := String.ofList rest
+    let ops := if body.isEmpty then some [] else ((body.splitOn "/").filter (· ≠ "")).mapM parseWOp
+    ops.map fun o => (c == 'c', o)
+  | _ => none
+
+def parseQ (s : String) : Option Qry :=
+  let kind := String.ofList (s.toList.takeWhile (fun c => !c.isDigit))
+  let arg := (String.ofList (s.toList.dropWhile (fun c => !c.isDigit))).toNat?
+  match kind, arg with
+  | "N", some n => some (.qName n)
+  | "K", some n => some (.qRankGe n)
+  | "R", some n => some (.qRole n)
+  | "G", some n => some (.qGroup n)
+  | "H", some n => some (.qGroupLabel n)
+  | "T", some n => some (.qTop n)
+  | "iN", some n => some (.iName n)
+  | "iR", some n => some (.iRole n)
+  | "lG", some n => some (.lGroups n)
+  | "lM", some n => some (.lMembers n)
+  | "E", some n => some (.load n)
+  | _, _ => none
+
+def parseAns (s : String) : Option (List Nat) :=
+  if s == "-" then some [] else (s.splitOn ".").mapM (·.toNat?)
+
+def parseRead (s : String) : Option (Qry × List Nat) :=
+  match s.splitOn "=" with
+  | [q, a] => do pure (← parseQ q, ← parseAns a)
+  | _ => none
+
+def parseReadTx (tok : String) : Option (String × ReadTx) :=
+  match tok.splitOn ":" with
+  | [who, ts, te, reads] => do
+    let rs ← (reads.splitOn "|").mapM parseRead
+    pure (who, { tagStart := ← ts.toNat?, tagEnd := ← te.toNat?, reads := rs })
+  | _ => none
+
+def step (line : String) : String :=
+  match splitSp line with
+  | "mv" :: _ :: _ :: _ :: txs =>
+    match txs.mapM parseTx with
+    | some ts => s!"v{(committedTxs ts).length}"
+    | none => "bad-case"
+  | "race" :: _ => "done"
+  | _ => "bad-case"
+
+def firstBadRead (txs : List (Bool × List WOp)) (t : ReadTx) : String :=
+  if t.tagStart != t.tagEnd then "tag-moved"
+  else if (committedTxs txs).length < t.tagStart then "tag-not-a-committed-version"
+  else match t.reads.find? (fun qa => evalQ qa.1 (versionOf txs t.tagStart) != qa.2) with
+    | some qa => s!"read-differs(model:{qa.1 |> fun q => (evalQ q (versionOf txs t.tagStart))})"
+    | none => "?"
+
+def specStep (line : String) : String :=
+  match line.splitOn "\t" with
+  | [case, impl] =>
+    match splitSp case with
+    | "mv" :: _ :: _ :: _ :: txs =>
+      match txs.mapM parseTx with
+      | none => "bad-case"
+      | some ts =>
+        match splitSp impl with
+        | v :: toks =>
+          if v != s!"v{(committedTxs ts).length}" then s!"fail:final-version:{v}"
+          else match toks.mapM parseReadTx with
+            | none => "unparsed"
+            | some rts =>
+              match rts.find? (fun rt => !readTxOk ts rt.2) with
+              | none => "ok"
+              | some rt => s!"fail@{rt.1}:{firstBadRead ts rt.2}"
+        | [] => "unparsed"
+    | "race" :: _ => if impl == "done" then "ok" else "fail:" ++ impl
+    | _ => "bad-case"
+  | _ => "bad-case"
 
 def run (spec : Bool) : IO Unit := forEachLine (if spec then specStep else step)
 
